@@ -242,8 +242,12 @@ class C16(Prop):
 
     def compare(self, case, impl, model):
         if "err" in model:
-            if impl["status"] != "err" or (impl["err"] != model["err"] and impl["err"] != "usageError"):
-                return f"model: error {model['err']}; implementation: {impl['status']} {impl.get('err')}"
+            # (which of several problems of one command line is reported, and in which words, is not the statement's
+            # business: an error is an error; a crash of the command is not)
+            # (inputs the statement does not cover - a non-mapping component section, say - crash the command today, and
+            # the model says so: any way of failing is as good there)
+            if impl["status"] != "err" or (impl["err"] == "crash" and model["err"] != "crash"):
+                return f"model: error {model['err']}; implementation: {impl['status']} {impl.get('err')} {impl.get('exc', '')}"
             if impl["calls"]:
                 return "implementation started the application although the command failed"
             return None
@@ -266,8 +270,8 @@ class C16(Prop):
         if "err" in exp:
             if impl["status"] != "err":
                 fails.append(f"the statement demands an error ({exp['err']}) but the application was started")
-            elif exp["err"] in ("serviceNotFound", "ambiguous", "noServices") and impl["err"] not in (exp["err"], "usageError"):
-                fails.append(f"expected error {exp['err']}, got {impl['err']}")
+            elif impl["err"] == "crash":
+                fails.append(f"the statement demands a usage error ({exp['err']}); the command crashed with {impl.get('exc')}")
         else:
             if impl["status"] != "ok":
                 if impl["err"] != "crash":
